@@ -442,10 +442,36 @@ pub fn check(prop: &str, tier: Tier) -> i32 {
     check_pass(prop, tier)
 }
 
+/// Determinism probe: the first units are executed again in separate processes with a different
+/// chunking; the (unit, trace id) lines must be identical. A difference is a harness error.
+fn determinism_probe(prop: &str, tier: Tier, seed: u64, n: u64) -> Result<u64, String> {
+    let run = |from: u64, to: u64| -> Vec<String> {
+        let mut cmd = Command::new(self_exe());
+        cmd.args(["worker", prop, tier.name(), &seed.to_string(), &from.to_string(), &to.to_string()]);
+        let (out, _, _) = run_limited(cmd, 120);
+        out.lines().filter(|l| l.starts_with("U ")).map(|l| l.to_string()).collect()
+    };
+    let a = run(0, n);
+    let mut b = run(0, n / 2);
+    b.extend(run(n / 2, n));
+    if a.len() as u64 != n || a != b {
+        let diff = a.iter().zip(b.iter()).find(|(x, y)| x != y).map(|(x, y)| format!("{x} / {y}")).unwrap_or_else(|| format!("{} vs {} lines", a.len(), b.len()));
+        return Err(diff);
+    }
+    Ok(n)
+}
+
 fn check_pass(prop: &str, tier: Tier) -> i32 {
     crate::exec::install_panic_hook();
     let start = Instant::now();
     let seed = base_seed();
+    let determinism = match determinism_probe(prop, tier, seed, 48) {
+        Ok(n) => n,
+        Err(diff) => {
+            eprintln!("harness error: two executions of the same units differ ({diff}); the simulator is not deterministic");
+            return 2;
+        }
+    };
     let n_units = unit_count(prop, tier);
     let workers: usize = std::env::var("VERIF_WORKERS").ok().and_then(|s| s.parse().ok()).unwrap_or_else(|| std::thread::available_parallelism().map(|n| n.get()).unwrap_or(8));
     println!("check {prop} tier={} seed={seed} units={n_units} workers={workers}", tier.name());
@@ -616,6 +642,7 @@ fn check_pass(prop: &str, tier: Tier) -> i32 {
         ("aborted_runs_panic_not_a_violation_of_this_property", J::u(agg.stats.aborted)),
         ("worker_hangs_or_crashes", J::u(agg.hangs.len() as u64)),
         ("regression_replays_of_fixed_defects_run", J::u(regressions_run)),
+        ("determinism_probe_units_rerun_in_other_processes_with_identical_trace_ids", J::u(determinism)),
         ("reach_probes", J::Obj(agg.stats.probes.iter().map(|(k, v)| (k.clone(), J::u(*v))).collect())),
         ("runs_per_hour", J::u((agg.cases as f64 / explore_wall.max(0.001) * 3600.0) as u64)),
         ("known_findings_seen", J::Obj(known_seen.iter().map(|(k, v)| (k.clone(), J::u(v.1))).collect())),
